@@ -31,6 +31,11 @@ var solvers = []solverSpec{
 	{"cvc5", func(ms int) []string {
 		return []string{"cvc5", "--lang=smt2", fmt.Sprintf("--tlimit=%d", ms)}
 	}, true},
+	// cvc5 translating bit-vector arithmetic to integer arithmetic: decides the linear
+	// length/offset inequalities that bit-blasting finds hard
+	{"cvc5-int", func(ms int) []string {
+		return []string{"cvc5", "--lang=smt2", "--solve-bv-as-int=sum", fmt.Sprintf("--tlimit=%d", ms)}
+	}, true},
 }
 
 var solverSem = make(chan struct{}, 16)
@@ -123,7 +128,12 @@ func race(jobs []job, timeoutMs int, tried *[]string) (SolveResult, bool) {
 
 // Solve: a short first attempt (z3-new exact, plus z3-new/cvc5 on the multiplication-abstracted
 // query when there is one), then a race of all solvers on both encodings.
-func Solve(qPlain, qALL, qAbsMul string, timeoutMs int) SolveResult {
+type weakQuery struct {
+	q     string
+	label string
+}
+
+func Solve(qPlain, qALL string, weak []weakQuery, timeoutMs int) SolveResult {
 	var tried []string
 	t0 := time.Now()
 	first := timeoutMs / 8
@@ -133,11 +143,23 @@ func Solve(qPlain, qALL, qAbsMul string, timeoutMs int) SolveResult {
 	if first < 500 {
 		first = 500
 	}
-	j1 := []job{{sp: solvers[0], q: qPlain}}
-	if qAbsMul != "" {
-		j1 = append(j1, job{solvers[0], qAbsMul, true, "(absmul)"}, job{solvers[2], qAbsMul, true, "(absmul)"})
+	// stage 0: one solver on the exact query; most obligations end here
+	zero := first / 3
+	if zero < 400 {
+		zero = 400
 	}
-	r, ok := race(j1, first, &tried)
+	r, ok := race([]job{{sp: solvers[0], q: qPlain}}, zero, &tried)
+	if !ok {
+		// stage 1: the integer-arithmetic back end and the weakened encodings, short budget
+		j1 := []job{{sp: solvers[3], q: qALL}}
+		for _, w := range weak {
+			j1 = append(j1, job{solvers[0], w.q, true, w.label})
+		}
+		if len(weak) > 0 {
+			j1 = append(j1, job{solvers[3], weak[len(weak)-1].q, true, weak[len(weak)-1].label})
+		}
+		r, ok = race(j1, first, &tried)
+	}
 	if !ok {
 		var j2 []job
 		for _, sp := range solvers {
@@ -146,8 +168,8 @@ func Solve(qPlain, qALL, qAbsMul string, timeoutMs int) SolveResult {
 				q = qALL
 			}
 			j2 = append(j2, job{sp: sp, q: q})
-			if qAbsMul != "" {
-				j2 = append(j2, job{sp, qAbsMul, true, "(absmul)"})
+			for _, w := range weak {
+				j2 = append(j2, job{sp, w.q, true, w.label})
 			}
 		}
 		r, _ = race(j2, timeoutMs, &tried)
